@@ -86,6 +86,41 @@ def run_stages(scfg, stages="JLB", ctx=None):
     return done
 
 
+def reload_plan(g, payload):
+    """Whether (and where, how) this graph case is written out and read back
+    between two stages; a pure function of the graph.  -> (after_stage, how) or None"""
+    if payload == "ast":
+        return None  # an AST payload cannot be written (C15 scope)
+    r = int(core.graph_hash(g)[8:12], 16) % 8
+    return {0: ("L", "dict"), 1: ("L", "yaml"), 2: ("J", "dict")}.get(r)
+
+
+def run_stages_reload(scfg, stages, ctx, plan):
+    """run_stages with one write/read round trip after stage plan[0].
+    -> (done, the graph object the last stage ran on)"""
+    from numba_scfg.core.datastructures.scfg import SCFG
+
+    done = []
+    for s in stages:
+        d = run_stages(scfg, s, ctx)
+        if not d:
+            break
+        done += d
+        if plan and s == plan[0] and s != stages[-1]:
+            try:
+                if plan[1] == "dict":
+                    new, _ = SCFG.from_dict(scfg.to_dict())
+                else:
+                    new, _ = SCFG.from_yaml(scfg.to_yaml())
+            except Exception:
+                (ctx or core.CTX).hit("driver.reload_failed")  # C15's business
+                continue
+            attach.retrack(scfg, new)
+            (ctx or core.CTX).hit("driver.reloaded_between_stages." + plan[1])
+            scfg = new
+    return done, scfg
+
+
 def run_graph_case(g, props, payload="basic", stages="JLB", case_id=None, cap=None):
     """One case: build the graph, run the stages under the monitors."""
     ctx = core.set_ctx(core.Ctx(case_id))
